@@ -180,10 +180,7 @@ func C05(r *h.Run) {
 		case proto == "connect":
 			kind = "WConnectStream"
 			if fl, pay, ok := lastFrameFlags(raw); ok && fl&0x02 != 0 {
-				if fl&1 == 1 && len(pay) > 0 {
-					pay = pay[1:] // tag compression
-				}
-				js = jsumOf(pay, true)
+				js = jsumOf(toyInflate(hdr.Get("Connect-Content-Encoding"), fl, pay), true)
 			}
 		case proto == "grpcweb":
 			kind = "WGrpcWeb"
